@@ -34,7 +34,7 @@ AcctOK(e) == \A i \in 1..Len(e.propname.resps) :
                LET r == e.propname.resps[i].res
                    avail == e.propname.resps[i].props IN
                /\ PropNameOK(avail)
-               /\ "DAV: resourcetype" \in Names(avail)
+               /\ MustHave(e.srv, r, [ncol |-> e.ncol, nobj |-> e.nobj]) \subseteq Names(avail)
                /\ (\E j \in 1..Len(e.allprop.resps) : e.allprop.resps[j].res = r) /\ AllPropOK(RespOf(e.allprop, r), avail)
                /\ (\E j \in 1..Len(e.prop.resps) : e.prop.resps[j].res = r) /\ PropOK(RespOf(e.prop, r), e.names, avail)
                /\ (e.depth = "0" /\ i = 1 => Len(e.emptybody.resps) >= 1 /\ AllPropOK(e.emptybody.resps[1].props, avail))
@@ -56,6 +56,8 @@ PfWhy(e) == IF ~(ShapeOK(e, e.propname) /\ ShapeOK(e, e.allprop) /\ ShapeOK(e, e
                 ELSE "scope got=" \o ToString(Len(e.prop.resps)) \o " want=" \o ToString(Cardinality(WantScope(e))))
             ELSE IF e.noform # 400 THEN "no-form-not-400 st=" \o ToString(e.noform)
             ELSE IF e.emptybody.st # 207 THEN "empty-body st=" \o ToString(e.emptybody.st)
+            ELSE IF \E i \in 1..Len(e.propname.resps) : ~(MustHave(e.srv, e.propname.resps[i].res, [ncol |-> e.ncol, nobj |-> e.nobj]) \subseteq Names(e.propname.resps[i].props))
+                 THEN "property-of-the-resource-not-available"
             ELSE IF \E i \in 1..Len(e.prop.resps) : ~Once(e.prop.resps[i].props) THEN "property-accounted-more-than-once"
             ELSE IF \E i \in 1..Len(e.prop.resps) : Names(e.prop.resps[i].props) # SetOf(e.names) THEN "requested-names-not-all-accounted"
             ELSE "accounting-inconsistent"
